@@ -81,6 +81,11 @@ CHECKS = {
          "Every base subset of 3 keys, with per-key edits per branch, column operations, key position, keyless tables and untouched filler rows explored up to a stated number of deviations from 'no edit', is ingested and merged by the real Merger following the CLI's flow (both the row output and the committed block output). Oracles: an exact cell model (conflict set and result rows) for tuples that keep the column set; the laws merge(base;X,base)=X, merge(base;X,X)=X and order independence by column name; untouched rows unchanged under their own column names; the committed result passes the structural oracle. Failures are classified by input shape; the shapes key-not-first, column-op and keyless fail on this tree and are recorded as known findings (the repository's own test pins the behaviour), the plain shape must be clean.",
          "Trusted: the cell model (90 lines) written from the repository's conventions; in-memory store with a write overlay. 3 keys, 2 value columns, one column operation per branch, N <= 3. Goroutine scheduling inside the merger is free here (decided in C16).",
          "DESIGN.md §4 C05"),
+ "C14": ("fault_enumeration",
+         "exhaustive enumeration of fault and crash positions over every store write of commit/discard sequences, with re-run, on the real stores",
+         "For transactions staging 1..3 new or existing branches, every sequence of up to 2 (thorough 3) commit/discard operations is run with no fault, with an injected error at store write #k and with a simulated process death before store write #k for every k, then commit is re-run; the branch iteration order inside Commit is an explored choice (build-time overlay of the map range). The real transaction package runs on the real SQL ref store and an object store behind wrappers that number all mutating calls in one sequence. All-or-nothing is a statement about every failure point of the per-branch loop, which is exactly what is enumerated.",
+         "Trusted: the fault wrappers (atomic store calls; a crash is death between two calls); the invariant checker (duplicates, committed => all moved, logs, refusal of double commit / discard-after-commit). After a (possibly partial) discard the staged set is allowed to have shrunk.",
+         "DESIGN.md §4 C14"),
 }
 
 NOT_YET = {}
